@@ -229,6 +229,57 @@ theorem loaded_value (c : Cfg) (s' : Dict) (a : Attr) (v : PyVal) (ha : attrOfNa
 theorem attrOfName_name (a : Attr) (h : a ≠ Attr.raised_) : attrOfName a.name = some a := by
   cases a <;> first | rfl | exact absurd rfl h
 
+/-! ## Part 3: `_print_errors` only controls what is PRINTED
+
+The flag never changes a setting or the verdict: not in the translated decision code (every use of
+`self._print_errors` there guards a `sys.stdout.write`, which the translator drops; if a future version tests it
+anywhere else these proofs stop building), and not in the loader model (`updateDict` drops unknown names whatever
+the flag says — `unknown_dropped`).  The harness varies the flag (absent / False / True) on the real object. -/
+
+def kCliOpts : Str := ['_','c','l','i','_','o','p','t','s']
+
+/-- two environments that differ at most in `_print_errors` -/
+def SameButPrintErrors (e1 e2 : Env) : Prop :=
+  e1.call = e2.call ∧ e1.meth = e2.meth ∧ e1.methRaises = e2.methRaises ∧ e1.privHas = e2.privHas ∧
+  e1.priv kCliOpts = e2.priv kCliOpts
+
+theorem imply_print_errors_irrelevant (e1 e2 : Env) (c : Cfg) (h : SameButPrintErrors e1 e2) :
+    imply e1 c = imply e2 c := by
+  obtain ⟨h1, h2, h3, h4, h5⟩ := h
+  simp only [kCliOpts] at h5
+  funext a
+  cases a <;> cfg_simp <;> (try simp only [h1, h2, h3, h4, h5])
+
+theorem guards_print_errors_irrelevant (e1 e2 : Env) (c : Cfg) (h : SameButPrintErrors e1 e2) :
+    ∀ g ∈ guards, g e1 c = g e2 c := by
+  obtain ⟨h1, h2, h3, h4, h5⟩ := h
+  simp only [kCliOpts] at h5
+  unfold guards
+  simp only [List.forall_mem_cons]
+  repeat' constructor
+  all_goals first
+    | (intro _ hm; cases hm)
+    | (cfg_simp <;> (try simp only [h1, h2, h3, h4, h5]))
+
+theorem firstGuard_print_errors_irrelevant (e1 e2 : Env) (c : Cfg) (h : SameButPrintErrors e1 e2) :
+    firstGuard e1 c = firstGuard e2 c :=
+  findIdx?_agree _ _ _ (guards_print_errors_irrelevant e1 e2 c h)
+theorem finish_print_errors_irrelevant (facts : Facts) (b1 b2 : Bool) (cli : Option Dict) (s : Dict) :
+    finish (concreteEnv facts b1 cli) s = finish (concreteEnv facts b2 cli) s := by
+  have hs : SameButPrintErrors (concreteEnv facts b1 cli) (concreteEnv facts b2 cli) := by
+    refine ⟨rfl, rfl, rfl, rfl, ?_⟩
+    have : ¬ (kCliOpts = "_print_errors".toList) := by decide
+    simp only [concreteEnv, if_neg this]
+  unfold finish
+  simp only []
+  have e : ∀ env, Cfg.ofSnap (implySnap env (Cfg.snap (toCfg s))) = imply env (toCfg s) := fun _ => rfl
+  rw [e, e, imply_print_errors_irrelevant _ _ _ hs, firstGuard_print_errors_irrelevant _ _ _ hs]
+
+theorem print_errors_irrelevant (inp : Input) (b : Bool) :
+    loadAll { inp with printErrors := b } = loadAll inp := by
+  have hp : ∀ s0 cli, preImply { inp with printErrors := b } s0 cli = preImply inp s0 cli := fun _ _ => rfl
+  unfold loadAll construct
+  simp only [hp, finish_print_errors_irrelevant inp.facts b inp.printErrors]
 /-! ## the legacy section (repaired by /repo 8686086; regression witness corpus/C16/legacy-section-typed-option.json) -/
 
 /-- full statement: a file with only the legacy section [redhat-access-insights] contributes its items exactly like
